@@ -102,3 +102,12 @@ Qed.
 Theorem C17_refuted_kw_before_dot :
   nstmts (tx "CREATE PROCEDURE p() BEGIN IF .5 > x THEN select 1; END IF; END; select 2") = Ok 3%nat.
 Proof. vm_compute. reflexivity. Qed.
+
+(* F38: a qualified name whose last part is spelled CASE (NEW.case): the rule (CASE|IN|VALUES|USING|FROM|AS)\b stands before
+   the rule that makes a word after a period a Name, so the part is a Keyword CASE token that raises the split level and is
+   never closed; NEW.end (a Name) is harmless *)
+Theorem C17_refuted_dot_case :
+  nstmts (tx "CREATE PROCEDURE p() BEGIN c := NEW.case; END; select 2; select 3") = Ok 1%nat
+  /\ nstmts (tx "CREATE PROCEDURE p() BEGIN c := NEW.end; END; select 2; select 3") = Ok 3%nat.
+Proof. split; vm_compute; reflexivity. Qed.
+Print Assumptions C17_refuted_dot_case.
